@@ -339,8 +339,10 @@ func prjNamed(name, call, data, decoy string) (*proj.SR, string) {
 			}
 		}
 	}
-	// written LAST: a decoy never overwrites the layer's own file
-	if err := ioutil.WriteFile(full+".prj", []byte(data), 0644); err != nil {
+	// written LAST: a decoy never overwrites the layer's own file; data "!" = the layer has NO .prj of its own
+	if data == "!" {
+		os.Remove(full + ".prj")
+	} else if err := ioutil.WriteFile(full+".prj", []byte(data), 0644); err != nil {
 		panic(err)
 	}
 	arg := full + ".shp"
@@ -539,9 +541,13 @@ func implLine(line string, out *bufio.Writer) {
 		fmt.Fprintf(&b, "S %s P %s", rs, rp)
 	case "prjn":
 		// prjn <hex layer name> ext|noext|dotdot <hex bytes of its .prj> <hex bytes of the decoy .prj files>
-		data := unhx(t[3])
+		data := "!" // no .prj at all: SR() must fail, whatever else lies around
+		rp := "err ;"
+		if t[3] != "!" {
+			data = unhx(t[3])
+			_, rp = parseRes(data)
+		}
 		_, rs := prjNamed(unhx(t[1]), t[2], data, unhx(t[4]))
-		_, rp := parseRes(data)
 		fmt.Fprintf(&b, "S %s P %s", rs, rp)
 	default:
 		b.WriteString("skipped")
